@@ -149,7 +149,12 @@ func (b *builder) declareType(t ad.Type) {
 			b.attrs(t.Attrs)
 		})
 	case "alias", "array", "map":
-		b.types[t.Name] = Type(t.Name, b.lazy(*t.Base), func() { b.val(t.Val) })
+		b.types[t.Name] = Type(t.Name, b.lazy(*t.Base), func() {
+			b.val(t.Val)
+			if len(t.Default) > 0 { // a default declared on the type itself
+				Default(jsonValue(t.Default, kindOf(*t.Base)))
+			}
+		})
 	case "union":
 		b.types[t.Name] = Type(t.Name, func() {
 			b.attrs(t.Attrs)
